@@ -504,9 +504,15 @@ class CfgWorld:
         return 'add_prompt'
     def move_home(self):
         """options.codex_home now points somewhere else (the old directory keeps its files and manifests)"""
+        # sibling directories whose names are string-prefixes / extensions of one another (codex_hom, codex_home,
+        # codex_home-old, codex_home2): "under the root" means a prefix of path COMPONENTS, not of the path string
+        cur = os.path.basename(self.codex_home)
+        cands = [cur[:-1], cur[:-2], cur + '-old', cur + '2', 'elsewhere/' + cur]
+        cands = [c for c in cands if len(os.path.basename(c)) >= 3 and not os.path.exists(os.path.join(self.sb.home, c))]
         k = 2
         while os.path.exists(os.path.join(self.sb.home, 'codex_home%d' % k)): k += 1
-        self.codex_home = os.path.join(self.sb.home, 'codex_home%d' % k)
+        name = self.rng.choice(cands) if cands and self.rng.random() < 0.8 else 'codex_home%d' % k
+        self.codex_home = os.path.join(self.sb.home, name)
         os.makedirs(self.codex_home)
         return 'move_home'
     def switch_project(self):
@@ -796,7 +802,16 @@ def hist_two_roots(st, cw, sb, rng, hs):
         cw.write()
     if st == 0: return {'kind': 'deploy', 'adopt': False, 'flt': None, 'entry': 'cli_json', 'tags': ['script:all']}
     if st == 1: bump('prompt', 1); return {'kind': 'deploy', 'adopt': False, 'flt': None, 'entry': rng.choice(['cli_json', 'mcp', 'tui']), 'tags': ['script:prompts_only']}
-    if st == 2: bump('skill', 2); return {'kind': 'deploy', 'adopt': False, 'flt': None, 'entry': rng.choice(['cli_json', 'cli_human_yes']), 'tags': ['script:skills_only']}
+    if st == 2:
+        k = rng.random(); sk = [m for m in cw.modules if m['type'] == 'skill' and m['enabled']]
+        if k < 0.4: bump('skill', 2)
+        elif k < 0.7:      # a file disappears from the skills root
+            if len(sk[0]['files']) > 1: del sk[0]['files'][sorted(f for f in sk[0]['files'] if f != 'SKILL.md')[0]]
+            else: sk[0]['enabled'] = False
+            cw.write()
+        else:              # a file appears in the skills root
+            sk[0]['files']['extra/new.txt'] = b'new\n'; cw.write()
+        return {'kind': 'deploy', 'adopt': False, 'flt': None, 'entry': rng.choice(['cli_json', 'cli_human_yes']), 'tags': ['script:skills_only']}
     if st == 3: return {'kind': 'rollback', 'to': 1, 'tags': ['script:to_S1']}
     if st == 4: return {'kind': 'rollback', 'to': rng.choice([0, 2]), 'tags': ['script:sideways']}
     if st == 5: return {'kind': 'rollback', 'to': 1, 'tags': ['script:to_S1_again']}
@@ -838,6 +853,11 @@ def setup_moved_roots(cw, rng):
         cw.claude = False; cw.zed = False; cw.repo_agents = False
         if not cw.desired(None):
             cw.add_prompt()
+        if rng.random() < 0.7:     # codex_home itself is a root (it contains the other roots' directories)
+            cw.opts['write_agents_global'] = True
+            if not any(m['type'] == 'instructions' for m in cw.modules):
+                cw.modules.append({'id': 'instructions:base', 'type': 'instructions', 'dir': 'modules/instructions/base',
+                                   'files': {'AGENTS.md': b'# rules\n'}, 'targets': [], 'enabled': True})
 
 def script_moved_roots(st, cw, sb, rng):
     """deploy; relocate (other project / other codex_home / a root switched off); deploy again; ..."""
